@@ -1,12 +1,12 @@
 (* Gateway/Sound_C01C03_aux.v — helper lemmas for Sound_C01C03.v: observations of output
    lists, packet equality, what the decoder can return, round trips of the small packets the
-   gateway sends, and the reachability invariant "stored topic IDs are 16-bit". *)
+   gateway sends, and the reachability invariant "stored and registered topic IDs are 16-bit". *)
 From stdpp Require Import base option list numbers fin_maps nmap.
 From RecordUpdate Require Import RecordSet.
 From Coq Require Import Lia ZArith ZifyN ZifyNat ZifyBool.
 From Verif.Base Require Import Bytes BytesProofs.
 From Verif.Codec Require Import Packets Decode Encode EncodeProofs.
-From Verif.Topics Require Import Predefined.
+From Verif.Topics Require Import Predefined PredefinedProofs.
 From Verif.Gateway Require Import GwTypes GwStep GwStepProofs GwWf.
 From Verif.Checkers Require Import ChkCodec ChkGw ChkGw2.
 Import RecordSetNotations.
@@ -295,27 +295,63 @@ Qed.
 
 (* ------------------------------------------------------------------ the invariant *)
 
-Definition okT (t : txn) : Prop :=
-  match t with TxSubscribe _ tid => tid < 65536 | _ => True end.
+(* a REGISTER the gateway keeps for (re)sending carries a 16-bit topic ID *)
+Definition okP (p : packet) : Prop :=
+  match p with Register tid _ _ => tid < 65536 | _ => True end.
+Definition okD (d : resend_data) : Prop :=
+  match d with RsSn p => okP p | RsAck _ _ => True end.
+Definition okS (o : option packet) : Prop :=
+  match o with Some p => okP p | None => True end.
 
+Definition okT (t : txn) : Prop :=
+  match t with
+  | TxSubscribe _ tid => tid < 65536
+  | TxBrokerPub _ _ _ d sp _ => okD d /\ okS sp
+  | _ => True
+  end.
+
+(* the ID counter stays in range, stored transactions and registered topic IDs are 16-bit *)
 Definition Inv (s : gw_state) : Prop :=
-  gw_seq_next s <= 65534 /\ map_Forall (fun _ t => okT t) (gw_objs s).
+  gw_seq_next s <= 65534 /\ map_Forall (fun _ t => okT t) (gw_objs s) /\
+  map_Forall (fun (i : N) (_ : bytes) => i < 65536) (gw_registered s).
 
 Definition InvR (r : R) : Prop := Inv (fst (fst r)).
 
 Lemma Inv_same s s' :
-  gw_seq_next s' = gw_seq_next s -> gw_objs s' = gw_objs s -> Inv s -> Inv s'.
-Proof. unfold Inv. intros -> ->. tauto. Qed.
+  gw_seq_next s' = gw_seq_next s -> gw_objs s' = gw_objs s -> gw_registered s' = gw_registered s ->
+  Inv s -> Inv s'.
+Proof. unfold Inv. intros -> -> ->. tauto. Qed.
+
+Lemma Inv_objs s g t : Inv s -> gw_objs s !! g = Some t -> okT t.
+Proof. intros HI H. exact (proj1 (proj2 HI) g t H). Qed.
+
+Lemma get_by_id_objs s mid g t : get_by_id s mid = Some (g, t) -> gw_objs s !! g = Some t.
+Proof.
+  unfold get_by_id. destruct (gw_by_id s !! mid) as [g'|]; [|discriminate].
+  destruct (gw_objs s !! g') as [t'|] eqn:E; [|discriminate]. intros H. injection H as -> ->. exact E.
+Qed.
+
+Lemma Inv_get_by_id s mid g t : Inv s -> get_by_id s mid = Some (g, t) -> okT t.
+Proof. intros HI H. eapply Inv_objs; [exact HI|]. eapply get_by_id_objs, H. Qed.
+
+Lemma find_registered_bound s name i : Inv s -> find_registered s name = Some i -> i < 65536.
+Proof.
+  intros HI H. unfold find_registered in H. apply min_list_in, elem_of_list_In in H.
+  apply elem_of_ids_with_name in H. exact (proj2 (proj2 HI) i name H).
+Qed.
+
+Lemma okP_set_dup p : okP p -> okP (set_dup p).
+Proof. destruct p; exact (fun H => H). Qed.
 
 Lemma Inv_init cfg : wf_cfg cfg -> Inv (init_state cfg).
 Proof.
-  intros (_ & Hmin & _). split; cbn; [lia|apply map_Forall_empty].
+  intros (_ & Hmin & _). split; [cbn; lia|]. split; cbn; apply map_Forall_empty.
 Qed.
 
 (* peel a record update that touches neither gw_seq_next nor gw_objs *)
 Ltac peel :=
   match goal with
-  | |- Inv (set ?p ?f ?s) => apply (Inv_same s); [reflexivity|reflexivity|]
+  | |- Inv (set ?p ?f ?s) => apply (Inv_same s); [reflexivity|reflexivity|reflexivity|]
   end.
 
 Lemma Inv_arm s k d : Inv s -> Inv (arm s k d).
@@ -331,10 +367,20 @@ Lemma Inv_note_handed s i n : Inv s -> Inv (note_handed s i n).
 Proof. apply Inv_same; reflexivity. Qed.
 
 Lemma Inv_insert s k t : okT t -> Inv s -> Inv (s <| gw_objs := <[k := t]> (gw_objs s) |>).
-Proof. intros Ht [H1 H2]. split; [exact H1|]. cbn. apply map_Forall_insert_2; assumption. Qed.
+Proof.
+  intros Ht (H1 & H2 & H3). split; [exact H1|]. split; [|exact H3]. cbn. apply map_Forall_insert_2; assumption.
+Qed.
+
+Lemma Inv_reg_insert s i n :
+  i < 65536 -> Inv s -> Inv (s <| gw_registered := <[i := n]> (gw_registered s) |>).
+Proof.
+  intros Hi (H1 & H2 & H3). split; [exact H1|]. split; [exact H2|]. cbn. apply map_Forall_insert_2; assumption.
+Qed.
 
 Lemma Inv_delete s k : Inv s -> Inv (s <| gw_objs := delete k (gw_objs s) |>).
-Proof. intros [H1 H2]. split; [exact H1|]. cbn. apply map_Forall_delete. exact H2. Qed.
+Proof.
+  intros (H1 & H2 & H3). split; [exact H1|]. split; [|exact H3]. cbn. apply map_Forall_delete. exact H2.
+Qed.
 
 Lemma Inv_new_obj s t : okT t -> Inv s -> Inv (fst (new_obj s t)).
 Proof. intros Ht HI. unfold new_obj. cbn [fst]. peel. apply Inv_insert; assumption. Qed.
@@ -357,9 +403,10 @@ Hypothesis Hcfg : wf_cfg cfg.
 Lemma seq_next_inv s :
   Inv s -> Inv (fst (fst (seq_next cfg s))) /\ snd (fst (seq_next cfg s)) <= 65534.
 Proof.
-  destruct Hcfg as (_ & Hmin & Hmax & _). intros [H1 H2]. unfold seq_next. cbv zeta. cbn [fst snd].
+  destruct Hcfg as (_ & Hmin & Hmax & _). intros (H1 & H2 & H3). unfold seq_next. cbv zeta. cbn [fst snd].
   split; [|exact H1].
-  destruct (N.eqb_spec (gw_seq_next s) (max_tid cfg)) as [E|E]; (split; cbn; [lia|exact H2]).
+  destruct (N.eqb_spec (gw_seq_next s) (max_tid cfg)) as [E|E];
+    (split; [cbn; lia|split; [exact H2|exact H3]]).
 Qed.
 
 Lemma skip_predefined_inv fuel : forall s id, Inv s -> id <= 65534 ->
@@ -388,12 +435,14 @@ Proof.
     + apply skip_predefined_inv; assumption.
 Qed.
 
-Lemma register_topic_inv s name : Inv s -> Inv (fst (register_topic cfg s name)).
+Lemma register_topic_inv s name : Inv s ->
+  Inv (fst (register_topic cfg s name)) /\ (forall i, snd (register_topic cfg s name) = Some i -> i < 65536).
 Proof.
-  intros HI. unfold register_topic. destruct (find_registered s name); [exact HI|].
-  pose proof (new_topic_id_inv s HI) as [Hs _]. destruct (new_topic_id cfg s) as [s' [i|]]; cbn [fst] in *.
-  - peel. exact Hs.
-  - exact Hs.
+  intros HI. unfold register_topic. destruct (find_registered s name) as [j|] eqn:Hf.
+  - cbn [fst snd]. split; [exact HI|]. intros i H. injection H as <-. eapply find_registered_bound; eassumption.
+  - pose proof (new_topic_id_inv s HI) as [Hs Hi]. destruct (new_topic_id cfg s) as [s' [i|]]; cbn [fst snd] in *.
+    + specialize (Hi i eq_refl). split; [apply Inv_reg_insert; [lia|exact Hs]|]. intros i' H. injection H as <-. lia.
+    + split; [exact Hs|]. intros i H. discriminate H.
 Qed.
 
 (* ---- handlers *)
@@ -445,6 +494,14 @@ Ltac inv_step :=
     | match goal with |- InvR (if ?x then _ else _) => destruct x eqn:? end
     | match goal with |- Inv (match ?x with _ => _ end) => destruct x eqn:? end
     | match goal with |- Inv (if ?x then _ else _) => destruct x eqn:? end
+    | match goal with
+      | |- okD _ /\ okS _ => split
+      | |- okT (TxBrokerPub _ _ _ _ _ _) => split
+      end
+    | match goal with
+      | |- okD _ => cbn [okD]; first [exact I|assumption|apply okP_set_dup; assumption|cbn [okP]; lia]
+      | |- okS _ => cbn [okS]; first [exact I|assumption|cbn [okP]; lia]
+      end
     | progress cbv zeta ].
 Ltac inv_auto := repeat inv_step.
 
@@ -476,8 +533,9 @@ Proof.
   destruct ((2 <? q) || (mid =? 0)); [inv_auto|].
   destruct (tit =? TIT_STRING).
   - destruct (negb (has_wildcard name)).
-    + pose proof (new_topic_id_inv s HI) as [Hs Hi]. destruct (new_topic_id cfg s) as [s' [i|]]; cbn [fst snd] in *.
-      * specialize (Hi i eq_refl). inv_auto. lia.
+    + pose proof (register_topic_inv s name HI) as [Hs Hi].
+      destruct (register_topic cfg s name) as [s' [i|]]; cbn [fst snd] in *.
+      * specialize (Hi i eq_refl). inv_auto.
       * inv_auto.
     + inv_auto. lia.
   - destruct (tit =? TIT_PREDEFINED).
@@ -487,11 +545,43 @@ Proof.
 Qed.
 
 Lemma bp_proceed_inv s g mid qos st data snpub :
-  Inv s -> InvR (bp_proceed cfg s g mid qos st data snpub).
-Proof. intros HI. unfold bp_proceed. cbv zeta. destruct data as [p|k m]; destruct st; inv_auto. Qed.
+  okD data -> okS snpub -> Inv s -> InvR (bp_proceed cfg s g mid qos st data snpub).
+Proof.
+  intros HD HS HI. unfold bp_proceed. cbv zeta.
+  assert (HI' : Inv (set_obj s g (TxBrokerPub mid qos st data snpub 0)))
+    by (apply Inv_set_obj; [split; assumption|exact HI]).
+  destruct data as [p|k m]; destruct st; inv_auto.
+Qed.
 
-Lemma bp_regack_inv s g t rc : Inv s -> InvR (bp_regack cfg s g t rc).
-Proof. intros HI. unfold bp_regack. inv_auto; apply bp_proceed_inv; inv_auto. Qed.
+Lemma bp_regack_inv s g t rc : okT t -> Inv s -> InvR (bp_regack cfg s g t rc).
+Proof.
+  intros Ht HI. unfold bp_regack.
+  destruct t as [mq a|m0 tid|m0 tid|mid qos st data snpub n]; try exact HI.
+  destruct Ht as [HD HS].
+  destruct st; destruct data as [p|k m]; try exact HI;
+    destruct p; try exact HI; destruct snpub as [pub|]; try exact HI.
+  cbn [okD okP okS] in HD, HS.
+  destruct (negb (rc =? RC_ACCEPTED)); [inv_auto|]. cbv zeta.
+  apply bp_proceed_inv; [exact HS|exact HS|]. apply Inv_reg_insert; assumption.
+Qed.
+
+(* a looked-up transaction: keep what the invariant says about it *)
+Ltac by_id HI :=
+  match goal with
+  | |- context [get_by_id ?s ?mid] =>
+    let Hobj := fresh "Hobj" in
+    let g := fresh "g" in
+    let t := fresh "t" in
+    pose proof (Inv_get_by_id s mid) as Hobj;
+    destruct (get_by_id s mid) as [[g t]|]; [|exact HI];
+    specialize (Hobj g t HI eq_refl);
+    destruct t as [?mq ?a|?m0 ?tid|?m0 ?tid|?m0 ?q ?st ?data ?snpub ?rn]; try exact HI;
+    cbn [okT] in Hobj;
+    match type of Hobj with
+    | _ /\ _ => let HD := fresh "HD" in let HS := fresh "HS" in destruct Hobj as [HD HS]
+    | _ => idtac
+    end
+  end.
 
 Lemma handle_sn_inv s p : Inv s -> InvR (handle_sn cfg s p).
 Proof.
@@ -500,9 +590,10 @@ Proof.
   destruct p; try exact HI;
     try (match goal with
          | |- context [register_topic cfg s ?name] =>
-           pose proof (register_topic_inv s name HI) as Hr;
+           pose proof (register_topic_inv s name HI) as [Hr _];
            destruct (register_topic cfg s name) as [s' [i|]]; cbn [fst] in Hr
          end);
+    try by_id HI;
     inv_auto;
     first [ apply handle_connect_inv | apply connect_auth_inv | apply handle_client_publish_inv
           | apply handle_subscribe_inv | apply handle_unsubscribe_inv | apply bp_regack_inv
@@ -518,20 +609,26 @@ Proof.
   - destruct ((q =? 0) && negb true); [inv_auto|].
     destruct (if q =? 0 then _ else _) as [mid'|]; [|inv_auto].
     destruct (2 <? q); [inv_auto|].
-    pose proof (new_topic_id_inv s HI) as [Hs _].
-    destruct (new_topic_id cfg s) as [s' [i|]]; cbn [fst] in Hs; [|inv_auto].
-    apply bp_proceed_inv. inv_auto.
+    pose proof (new_topic_id_inv s HI) as [Hs Hi].
+    destruct (new_topic_id cfg s) as [s' [i|]]; cbn [fst snd] in Hs, Hi; [|inv_auto].
+    specialize (Hi i eq_refl).
+    apply bp_proceed_inv; inv_auto.
 Qed.
 
 Lemma handle_mq_inv s m : Inv s -> InvR (handle_mq cfg s m).
 Proof.
-  intros HI. unfold handle_mq. destruct m; try exact HI; inv_auto;
-    first [apply handle_broker_publish_inv, HI | apply bp_proceed_inv, HI].
+  intros HI. unfold handle_mq. destruct m; try exact HI; try by_id HI; inv_auto;
+    first [apply handle_broker_publish_inv, HI | apply bp_proceed_inv; inv_auto].
 Qed.
 
 Lemma fire_inv s k : Inv s -> InvR (fire cfg s k).
 Proof.
-  intros HI. unfold fire. destruct k as [g|g|g|p|p]; inv_auto.
+  intros HI. unfold fire. destruct k as [g|g|g|p|p]; [inv_auto|inv_auto| |inv_auto|inv_auto].
+  destruct (gw_objs s !! g) as [t|] eqn:E; [|exact HI].
+  pose proof (Inv_objs s g t HI E) as Ht.
+  destruct t as [mq a|m0 tid|m0 tid|mid qos st data snpub n]; try exact HI.
+  destruct Ht as [HD HS].
+  destruct data as [p|k m]; cbn [okD] in HD; inv_auto.
   all: match goal with
        | E : sn_send_owned ?a ?b ?c = _ |- _ =>
          let X := fresh "X" in
@@ -649,3 +746,20 @@ End TidFields.
 Lemma new_topic_id_last_sn cfg s x :
   snd (new_topic_id cfg (s <| gw_last_sn := x |>)) = snd (new_topic_id cfg s).
 Proof. rewrite new_topic_id_up. reflexivity. Qed.
+
+(* ------------------------------------------------------------------ registerTopic and unrelated fields *)
+
+Lemma register_topic_st cfg s name : gw_st (fst (register_topic cfg s name)) = gw_st s.
+Proof.
+  unfold register_topic. destruct (find_registered s name); [reflexivity|].
+  pose proof (new_topic_id_st cfg s) as H. destruct (new_topic_id cfg s) as [s' [i|]]; exact H.
+Qed.
+
+Lemma register_topic_last_sn cfg s x name :
+  snd (register_topic cfg (s <| gw_last_sn := x |>) name) = snd (register_topic cfg s name).
+Proof.
+  unfold register_topic.
+  change (find_registered (s <| gw_last_sn := x |>) name) with (find_registered s name).
+  destruct (find_registered s name); [reflexivity|].
+  rewrite new_topic_id_up. destruct (new_topic_id cfg s) as [s' [i|]]; reflexivity.
+Qed.
